@@ -319,6 +319,15 @@ func (c *cluster) emitBL(call *asyncCall) {
 		}
 	}
 	c.mon.onBecomeLeaderStart(call)
+	// the tracker of the new leader starts at its database's commit offset: it must not be beyond its log
+	if n := c.node(call.node); n.up {
+		if real := n.leaderCommitOffset(); real > call.headOff {
+			c.mu.Lock()
+			n.aheadTerm, n.aheadUpTo, n.aheadHead = call.term, real, call.headOff
+			c.mu.Unlock()
+			c.mon.onCommitAhead(call, real)
+		}
+	}
 }
 
 // emitAttach reports addFollower on the leader: the follower's log as it reported it, and whether the leader sent a
@@ -1148,7 +1157,29 @@ func (c *cluster) stepCatchupNewTerm(f int, fail bool) bool {
 		}
 		cu.stage = "newterm"
 	}
-	g := c.findGate(func(g *gate) bool { return g.kind == "newterm" && g.to == f && g.term == cu.term && g.fromInc == c.coordInc })
+	find := func() *gate {
+		return c.findGate(func(g *gate) bool { return g.kind == "newterm" && g.to == f && g.term == cu.term && g.fromInc == c.coordInc })
+	}
+	g := find()
+	if g == nil && cu.stage == "newterm" {
+		// the controller's main loop serves one catch-up loop at a time: if it is busy with the request to a node that
+		// cannot be reached, that request fails (connection refused) and this node's request follows
+		for i := 0; i < 4 && g == nil; i++ {
+			og := c.findGate(func(g *gate) bool {
+				return g.kind == "newterm" && g.to != f && g.term == cu.term && g.fromInc == c.coordInc
+			})
+			if og == nil || c.reachable(0, og.to) || c.findCatchup(og.to) == nil {
+				break
+			}
+			c.event("catch-up new-term to %d: unreachable", og.to)
+			c.findCatchup(og.to).stage = "sleeping"
+			c.release(og, nil, errUnavailable)
+			c.waitFor("the next catch-up request", shortWait, func() bool {
+				return find() != nil || c.findGate(func(g *gate) bool { return g.kind == "newterm" && g.fromInc == c.coordInc }) != nil
+			})
+			g = find()
+		}
+	}
 	if g == nil || cu.stage != "newterm" {
 		return false
 	}
@@ -1742,6 +1773,7 @@ func (c *cluster) stepRestart(id int) bool {
 		return true
 	}
 	c.event("restart %d", id)
+	c.mon.onRestart(id)
 	return true
 }
 
